@@ -53,6 +53,7 @@ def main(a):
     want = a.prop.upper() if a.prop else None
     rows = []
     bad = 0
+    baseline = {}
     for p in pats:
         if "seeded" in p.split(os.sep):
             meta = json.load(open(os.path.join(os.path.dirname(p), "meta.json")))
@@ -62,6 +63,20 @@ def main(a):
             name = os.path.basename(p)
             pid = name.split("-")[0].upper()
         if want and pid != want:
+            continue
+        if pid not in baseline:
+            # a kill only counts when the same command is clean on the unchanged tree
+            out = os.path.join("/dev/shm", "nrsim-base-%d" % os.getpid())
+            cmd = [os.path.join(runner.VERIF, "vcheck"), pid, "--tier", "quick", "--jobs", str(a.jobs)]
+            if a.runs:
+                cmd += ["--runs", str(a.runs)]
+            r0 = subprocess.run(cmd, env=dict(os.environ, VERIF_OUT=out), capture_output=True, text=True)
+            shutil.rmtree(out, ignore_errors=True)
+            baseline[pid] = r0.returncode
+            if r0.returncode != 0:
+                print("%-44s %s BASELINE NOT CLEAN (rc=%d): kills would be meaningless" % ("(unchanged tree)", pid, r0.returncode))
+                bad += 1
+        if baseline[pid] != 0:
             continue
         killed, replay_ok, detail, rc = run_one(pid, p, jobs=a.jobs, runs=a.runs)
         rows.append((name, pid, killed, replay_ok, detail))
